@@ -20,8 +20,10 @@ Fixpoint str_eqb (a b : str) : bool :=
 Definition is_nil {A} (l : list A) : bool := match l with [] => true | _ => false end.
 Definition mem (s : str) (l : list str) : bool := existsb (str_eqb s) l.
 
-(* a tag value as pysam returns it: int (types c C s S i I) or str (types Z A) *)
-Inductive tval := TInt (z : Z) | TStr (s : str).
+(* a tag value as pysam returns it: int (types c C s S i I), str (types Z A) or float (types f d).
+   A float is carried as the exact rational value of the IEEE number together with the text Python's str() prints for
+   it; float(str(x)) = x (round trip of repr, trusted) is how by-value counting reads it back.  Finite floats only. *)
+Inductive tval := TInt (z : Z) | TStr (s : str) | TFlt (q : Q) (s : str).
 
 (* error codes: 1 TypeError, 2 ValueError, 3 AttributeError, 4 NotImplementedError, 5 ZeroDivisionError *)
 Inductive res (A : Type) := Ok (a : A) | Raise (e : Z).
@@ -106,7 +108,7 @@ Definition str_of_Z (z : Z) : str :=
   end.
 
 Definition py_str (v : option tval) : str :=
-  match v with None => s_None | Some (TInt z) => str_of_Z z | Some (TStr s) => s end.
+  match v with None => s_None | Some (TInt z) => str_of_Z z | Some (TStr s) => s | Some (TFlt _ s) => s end.
 
 (* plain decimal literals:  [+-]? digits  and  [+-]? (digits [. digits*] | . digits)  *)
 Definition is_digit (c : Z) : bool := (48 <=? c) && (c <=? 57).
@@ -144,11 +146,19 @@ Definition parse_decimal (s : str) : option Q :=
 (* float(s) with  except ValueError: 0  (by-value counting) *)
 Definition py_float_or_0 (s : str) : Q := match parse_decimal s with Some q => q | None => 0%Q end.
 
+(* int(float) truncates towards zero *)
+Definition trunc_Q (q : Q) : Z := Z.quot (Qnum q) (Zpos (Qden q)).
+
 Definition py_int (v : tval) : res Z :=
   match v with
   | TInt z => Ok z
   | TStr s => match parse_int s with Some z => Ok z | None => Raise 2 end
+  | TFlt q _ => Ok (trunc_Q q)
   end.
+
+(* float(str(v)) with  except ValueError: 0 : the exact value of a float tag, else the decimal literal *)
+Definition num_of (v : option tval) : Q :=
+  match v with Some (TFlt q _) => q | _ => py_float_or_0 (py_str v) end.
 
 (* ---------------------------------------------------------------- tags, metaFromRead *)
 Fixpoint assoc (k : str) (l : list (str * tval)) : option tval :=
@@ -214,7 +224,7 @@ Definition xa_hit (r : read) : res bool :=
   match get_tag r t_XA with
   | None => Ok false
   | Some (TStr s) => xa_scan (split [59] s)
-  | Some (TInt _) => Raise 3
+  | Some _ => Raise 3                                  (* int / float has no split *)
   end.
 
 Definition in_iv (x s e : Z) : bool := (s <=? x) && (x <? e).
@@ -283,7 +293,7 @@ Definition weight (o : opts) (r : read) : res Q :=
   if o_div_multi o then
     match get_tag r t_XA with
     | Some (TStr s) => let n := Z.of_nat (length (split [59] s)) in Ok (w / inject_Z n)%Q
-    | Some (TInt _) => Raise 3
+    | Some _ => Raise 3
     | None =>
         match get_tag r t_NH with
         | None => Ok w
@@ -325,7 +335,7 @@ Definition joined_feature (o : opts) (ft : list str) (r : read) : list str :=
   map (feat r) (filter (fun t => negb (is_byvalue o t)) ft).
 
 Definition byvalue_amount (ft : list str) (b : str) (r : read) : Q :=
-  if mem b ft then py_float_or_0 (feat r b) else 0%Q.       (* float(feature_dict.get(byValue, 0)) *)
+  if mem b ft then num_of (meta r b) else 0%Q.              (* float(feature_dict.get(byValue, 0)) *)
 
 Definition none_if_empty (s : str) : str := if is_nil s then s_None else s.
 
@@ -400,7 +410,12 @@ Definition assign (o : opts) (reg : option (Z * Z * str)) (r : read) : res (list
 
 (* ---------------------------------------------------------------- the count table *)
 Definition tval_eqb (a b : tval) : bool :=
-  match a, b with TInt x, TInt y => x =? y | TStr x, TStr y => str_eqb x y | _, _ => false end.
+  match a, b with
+  | TInt x, TInt y => x =? y
+  | TStr x, TStr y => str_eqb x y
+  | TFlt x s, TFlt y t => (Qnum x =? Qnum y) && (Zpos (Qden x) =? Zpos (Qden y)) && str_eqb s t
+  | _, _ => false
+  end.
 Definition otval_eqb (a b : option tval) : bool :=
   match a, b with None, None => true | Some x, Some y => tval_eqb x y | _, _ => false end.
 Definition kc_eqb (a b : kc) : bool :=
@@ -483,7 +498,7 @@ Definition tag_int (r : read) (t : str) : res Z :=
 Definition tag_split_len (r : read) (t sep : str) : res Z :=
   match get_tag r t with
   | Some (TStr s) => Ok (Z.of_nat (length (split sep s)))
-  | Some (TInt _) => Raise 3
+  | Some _ => Raise 3
   | None => Raise 6
   end.
 (* an optional integer option used as a number (comparison with None raises TypeError) *)
@@ -544,10 +559,10 @@ Definition wf_read (r : read) : bool :=
   && match get_tag r t_NM with Some (TStr _) => false | _ => true end
   && match get_tag r t_XA with
      | Some (TStr s) => forallb xa_entry_ok (split [59] s)
-     | Some (TInt _) => false
+     | Some _ => false
      | None => true
      end
-  && match get_tag r t_NH with Some (TInt n) => negb (n =? 0) | Some (TStr _) => false | None => true end.
+  && match get_tag r t_NH with Some (TInt n) => negb (n =? 0) | Some _ => false | None => true end.
 
 Definition wf_opts (o : opts) : bool :=
   negb (is_nil (snd (prep o)))
@@ -559,7 +574,9 @@ Definition getS (v : Val) : str := getZs v.
 Definition getOpt {A} (f : Val -> A) (v : Val) : option A :=
   match getL v with x :: _ => Some (f x) | [] => None end.
 Definition dec_tval (v : Val) : tval :=
-  if getZ (nthV 0 v) =? 0 then TInt (getZ (nthV 1 v)) else TStr (getS (nthV 1 v)).
+  if getZ (nthV 0 v) =? 0 then TInt (getZ (nthV 1 v))
+  else if getZ (nthV 0 v) =? 1 then TStr (getS (nthV 1 v))
+  else TFlt (Qmake (getZ (nthV 1 v)) (Z.to_pos (getZ (nthV 2 v)))) (getS (nthV 3 v)).
 
 Definition dec_read (v : Val) : read :=
   {| paired := getB (nthV 0 v); read1 := getB (nthV 1 v); read2 := getB (nthV 2 v); unmapped := getB (nthV 3 v);
@@ -581,7 +598,11 @@ Definition dec_opts (v : Val) : opts :=
      o_bed := getOpt (fun l => map (fun row => (getS (nthV 0 row), getZ (nthV 1 row), getZ (nthV 2 row), getS (nthV 3 row))) (getL l)) (nthV 20 v) |}.
 
 Definition enc_tval (t : tval) : Val :=
-  match t with TInt z => VL [VZ 0; VZ z] | TStr s => VL [VZ 1; ofZs s] end.
+  match t with
+  | TInt z => VL [VZ 0; VZ z]
+  | TStr s => VL [VZ 1; ofZs s]
+  | TFlt q s => VL [VZ 2; VZ (Qnum q); VZ (Zpos (Qden q)); ofZs s]
+  end.
 Definition enc_kc (c : kc) : Val := match c with KS s => VL [VZ 0; ofZs s] | KZ z => VL [VZ 1; VZ z] end.
 Definition enc_cell (c : cellkey * Q) : Val :=
   let q := Qred (snd c) in
@@ -608,6 +629,7 @@ Definition nm_ok (o : opts) (r : read) : bool :=
   match o_max_edits o, get_tag r t_NM with
   | Some m, Some (TInt n) => n <=? m
   | Some m, Some (TStr s) => match parse_int s with Some n => n <=? m | None => true end
+  | Some m, Some (TFlt q _) => trunc_Q q <=? m
   | _, _ => true
   end.
 
@@ -642,10 +664,11 @@ Definition hits (o : opts) (r : read) : Z :=
   if o_div_multi o then
     match get_tag r t_XA with
     | Some (TStr s) => Z.of_nat (length (split [59] s))
-    | Some (TInt _) => 1
+    | Some _ => 1
     | None => match get_tag r t_NH with
               | Some (TInt n) => n
               | Some (TStr s) => match parse_int s with Some n => n | None => 1 end
+              | Some (TFlt q _) => trunc_Q q
               | None => 1
               end
     end
